@@ -276,7 +276,7 @@ C05_Withs ==
 
 (* ===================================================================== C06 *)
 C06_Withs == { <<WStr(<<>>)>>, <<WStr(<<120>>)>>, <<WStr(<<120, 121, 122>>)>>, <<WName("value"), WName("value")>>,
-               <<WName("matchNumber")>> }
+               <<WName("matchNumber")>>, <<WName("nosuchname")>> }     \* the last one names nothing: the match is deleted
 C06_Bodies == { <<La>>, <<Lab>>, <<Loop(1, -1, FALSE, La)>>, <<Cls("any")>>, <<Lit(<<bc>>)>> }
 
 (* ===================================================================== C13 *)
